@@ -54,8 +54,9 @@ PROPS = {
         harness_test="TestC02",
         n_quick=150, n_thorough=2000, thorough_seeds=8, timeout_quick=900,
         # every observable of the oracle driver (cursor, observed flags, vote lists, minted total) is the property's own subject
-        spec_ops=["vote", "endblock", "endblock50", "override", "activate"],
-        rule="per case: fresh skyway keeper fixture with 5 validators; 45 ops: votes (random validator or bursts of 2-4 validators, next/stale/gapped nonce, up to 3 competing deposit claims per nonce incl. one the handler cannot apply, "
+        spec_ops=["vote", "votex", "endblock", "endblock50", "override", "activate", "send", "build"],
+        rule="one honest event per nonce (deposit or executed-batch claim) plus competing claims that differ from it in exactly one field (compass, token, height, amount, sender, receiver, batch nonce); send / build ops; end-blocks whose time is +2 s, exactly at, one second past or 11 min past an open batch's timeout; one case in three opens with a directed batch -> claim -> tally-around-the-timeout history; "
+             "per case: fresh skyway keeper fixture with 5 validators; 45 ops: votes (random validator or bursts of 2-4 validators, next/stale/gapped nonce, up to 3 competing deposit claims per nonce incl. one the handler cannot apply, "
              "occasionally a remote height below an earlier one), end-blocks that first install a fresh power table (equal / tiny / random powers, extra outside power) and then tally (every 4th one at a multiple of 50: validator-nonce catch-up), "
              "governance nonce overrides to last / last-1 / ahead; distinct = distinct op text; non-trivial = at least one attestation became observed",
         trusted_base=[SDK_TRUST, "pointwise hash collision freeness on the claims of the history (NoCollisionAt)", "per-chain stores are disjoint (applyM); the harness drives one chain with several bridge deployments"],
@@ -100,6 +101,12 @@ PROPS = {
     "C08": dict(
         lean_modules=["PalomaModel.Props.C08", "PalomaModel.Props.Consts.Schedule"], gen=["Nondet.lean", "ConstTable.lean"],
         harness_test="TestC08",
+        # the same seeded workloads in a second process built with Go's `faketime` runtime (wall clock = 2009): snapshot
+        # publication / keep-warm ages, jail sentences and keep-alive expiry, relayer picks, vesting
+        clock_twin=[{"test": "TestC10", "dir": "C10", "n_quick": 60, "n_thorough": 600},
+                    {"test": "TestC12", "dir": "C12", "n_quick": 40, "n_thorough": 400},
+                    {"test": "TestC14", "dir": "C14", "n_quick": 40, "n_thorough": 400},
+                    {"test": "TestC18", "dir": "C18", "n_quick": 30, "n_thorough": 300}],
         n_quick=6, n_thorough=60, thorough_seeds=4, timeout_quick=900,
         spec_ops=[],
         level_text="PARTIAL. Lean 4 theorems: order-independence of every map-iteration on a consensus path (min/max window, total-order sort uniqueness, distinct-key writes, unique evidence winner) and, by decide over the inventory regenerated "
